@@ -359,6 +359,7 @@ type frame struct {
 type Solver struct {
 	muted   int
 	nframe  int
+	sticky  [][2]string
 	defs    map[string]defEntry // definition cache: normalised term -> name (valid while its frame is on the stack)
 	decls   []string        // declarations are global: they survive pop (global-declarations)
 	gdecl   map[string]bool
@@ -553,6 +554,7 @@ func (s *Solver) CheckNeg(goal string, onSat func(get func([]string) map[string]
 		return CheckResult{Status: "unsat", Backend: "syntactic"}
 	}
 	t0 := time.Now()
+	s.restick()
 	atomic.AddInt64(&gStats.Queries, 1)
 	res := CheckResult{Status: "unknown", Backend: "z3-new(incremental)"}
 	if !s.dead {
@@ -645,11 +647,15 @@ func (s *Solver) CheckNeg(goal string, onSat func(get func([]string) map[string]
 }
 
 // Feasible: quick satisfiability probe of the current stack (short timeout; unknown counts as feasible).
-func (s *Solver) Feasible() bool {
+func (s *Solver) Feasible() bool { return s.FeasibleT(300) }
+
+// FeasibleT: false only when the current stack is refuted within ms milliseconds.
+func (s *Solver) FeasibleT(ms int) bool {
 	if s.dead {
 		return true
 	}
-	io.WriteString(s.in, "(set-option :timeout 300)\n(check-sat)\n(set-option :timeout "+fmt.Sprint(min(s.timeout, 4000))+")\n")
+	s.restick()
+	io.WriteString(s.in, "(set-option :timeout "+fmt.Sprint(ms)+")\n(check-sat)\n(set-option :timeout "+fmt.Sprint(min(s.timeout, 4000))+")\n")
 	l, err := s.readLine()
 	if err != nil {
 		s.dead = true
@@ -813,6 +819,29 @@ func (s *Solver) Define(hint, term, sort string, fresh func(hint, sort string) s
 	s.Assert("(= " + n + " " + term + ")")
 	s.defs[key] = defEntry{n, s.frames[len(s.frames)-1].id}
 	return n
+}
+
+// Sticky registers a frame-independent fact (an axiom): it is asserted now and re-asserted before any later check
+// made after the frame holding it was popped.
+func (s *Solver) Sticky(t string) {
+	key := "assert|" + normaliseBound(t)
+	for _, k := range s.sticky {
+		if k[0] == key {
+			return
+		}
+	}
+	s.sticky = append(s.sticky, [2]string{key, t})
+	s.restick()
+}
+
+func (s *Solver) restick() {
+	for _, k := range s.sticky {
+		if e, ok := s.defs[k[0]]; ok && s.frameActive(e.frame) {
+			continue
+		}
+		s.Assert(k[1])
+		s.defs[k[0]] = defEntry{"", s.frames[len(s.frames)-1].id}
+	}
 }
 
 // AssertOnce asserts a formula unless the same (alpha-normalised) formula is already on the stack.
